@@ -92,7 +92,7 @@ def impl_walk(spec, roots, kind="getnext", size=10, lenient=False, version="v2c"
     agent = RA.Agent(
         db=[(tuple(o), v) for o, v in spec.get("db", [])],
         table=table,
-        bulk_policy={"rows": pol.get("rows"), "cut": pol.get("cut", 0), "stop_after_eom_row": pol.get("stop", True)},
+        bulk_policy={"rows": pol.get("rows"), "cut": pol.get("cut", 0), "stop_after_eom_row": pol.get("stop", True), "deep": pol.get("deep", False)},
         budget=budget,
         hook=hook,
     )
@@ -221,7 +221,7 @@ def below(db, roots):
     return out
 
 
-def oracle_exact(db, roots, walk, single_sorted=True):
+def oracle_exact(db, roots, walk, single_sorted=True, per_binding=False):
     """C01/C02 oracle on an implementation trace.  Returns a description or None."""
     if walk["outcome"] != ["done"]:
         return f"walk ended with {walk['outcome']}"
@@ -243,6 +243,8 @@ def oracle_exact(db, roots, walk, single_sorted=True):
     if single_sorted and len(roots) == 1 and ys != sorted(ys):
         return "single-root walk is not in ascending order"
     nreq = sum(1 for e in walk["events"] if e[0] == "req")
-    if nreq > len(db) + 2:
+    # an agent that answers with less than one repetition forces one request per binding and column
+    bound = max(1, len(roots)) * (len(db) + 2) if per_binding else len(db) + 2
+    if nreq > bound:
         return f"{nreq} requests for a database of {len(db)} instances"
     return None
